@@ -397,8 +397,9 @@ impl PeerDHTRecord {
         Ok(())
     }
 
-    /// Verify the record signature
-    pub fn verify_signature(&self) -> Result<()> {
+    /// The checks verification makes before looking at the signature: the user id is
+    /// the id of the embedded key and the record is within the documented bounds.
+    fn check_binding_and_bounds(&self) -> Result<()> {
         // The record belongs to `user_id`, so the key that signed it must be the key
         // that id is derived from - otherwise anyone can sign a record for any id.
         if self.user_id != UserId::from_public_key(&self.public_key) {
@@ -419,6 +420,13 @@ impl PeerDHTRecord {
                 format!("Record outside documented bounds: {e}").into(),
             ))
         })?;
+
+        Ok(())
+    }
+
+    /// Verify the record signature
+    pub fn verify_signature(&self) -> Result<()> {
+        self.check_binding_and_bounds()?;
 
         let message = self.create_signable_message()?;
         let ok = crate::quantum_crypto::ml_dsa_verify(&self.public_key, &message, &self.signature)
@@ -492,6 +500,9 @@ impl SignatureCache {
         // The verdict depends on every signed field and on the signature itself, so the
         // cache key must too. content_hash() (user id, sequence, timestamp) is shared by
         // a genuine record and any altered or forged copy of it.
+        // Not covered by the signable bytes (and cheap): always checked afresh.
+        record.check_binding_and_bounds()?;
+
         let hash = {
             let message = record.create_signable_message()?;
             let mut hasher = blake3::Hasher::new();
